@@ -274,6 +274,14 @@ def _expand_state_inner(task):
         out["flags"] = state_flags(o0, m0)
         out["layout"] = repr(o0.layout_key())
         dv = DimView(w0)
+        twin = spec.get("twin")
+        w0t = None
+        if twin:
+            from . import twin as TW
+            wspec_t, hist_t = (TW.flip_contraction if twin == "c08" else TW.distinct_values)(wspec, history)
+            w0t, _mt = build(wspec_t, hist_t, spec["D"])
+            out.setdefault("twin_compared", 0)
+            out.setdefault("twin_skipped", 0)
         plan = []
         for a in spec["probes"](m0, w0, o0):
             plan.append((a, False))
@@ -282,13 +290,16 @@ def _expand_state_inner(task):
                 plan.append((a, True))
         for a, is_core in plan:
             valid = m0.enabled(a, dv, o0)
-            fault = spec.get("faults") and not valid
+            fault = spec.get("faults") and not valid and not is_core
             if not valid and not fault:
                 out["skipped_disabled"] += 1
                 continue
             leaves, capped = run_leaves(w0, a)
             out["capped"] += int(capped)
             tree_p = 0.0
+            leaves_t = None
+            if twin == "c08" and not fault:
+                leaves_t, _c = run_leaves(w0t, a)
             for script, res, w1 in leaves:
                 out["n_trans"] += 1
                 out["n_leaves"] += 1
@@ -304,6 +315,19 @@ def _expand_state_inner(task):
                     for extra in spec.get("extra_judges", []):
                         from .judge import EXTRA
                         V.extend(EXTRA[extra](T))
+                    if twin == "c08":
+                        V.extend(TW.compare_c08(T, leaves_t, list(m0.ref.names), m0.ref.dims, Obs))
+                        out["twin_compared"] += 1
+                    elif twin == "c18":
+                        wt = w0t.clone()
+                        rt = wt.apply(a, script)
+                        usable = all(c["p"] is None or (np.isfinite(c["p"][c["chosen"]]) and c["p"][c["chosen"]] > 1e-12)
+                                     for c in rt.calls) and [c["chosen"] for c in rt.calls] == list(script)
+                        if usable:
+                            V.extend(TW.compare_c18(T, (script, rt, wt), Obs))
+                            out["twin_compared"] += 1
+                        else:
+                            out["twin_skipped"] += 1
                 if T.exp.get("overflow"):
                     out["overflow"] += 1
                 k = a[0]
@@ -347,7 +371,7 @@ def explore(spec_name, tier, seed, nproc=None, log=print):
     state_cap = spec.get("state_cap", 200000)
     nproc = nproc or int(os.environ.get("PWMC_PROCS", min(16, os.cpu_count() or 1)))
     ctx = mp.get_context("spawn")
-    stats = {"states": 0, "transitions": 0, "probes": 0, "leaves": 0, "capped": 0, "overflow": 0,
+    stats = {"twin_compared": 0, "twin_skipped": 0, "states": 0, "transitions": 0, "probes": 0, "leaves": 0, "capped": 0, "overflow": 0,
              "per_depth": [], "layouts": set(), "flags": {"nonlabel": 0, "entangled": 0, "mixed": 0, "complex": 0},
              "nontrivial": 0, "poisoned": {}, "outcomes": {}, "skipped_disabled": 0, "exhaustive": True,
              "depth_completed": -1, "caps": []}
@@ -388,6 +412,8 @@ def explore(spec_name, tier, seed, nproc=None, log=print):
                 stats["capped"] += r["capped"]
                 stats["overflow"] += r["overflow"]
                 stats["skipped_disabled"] += r["skipped_disabled"]
+                stats["twin_compared"] += r.get("twin_compared", 0)
+                stats["twin_skipped"] += r.get("twin_skipped", 0)
                 stats["layouts"].add(r["layout"])
                 fl = r["flags"]
                 for i, k in enumerate(("nonlabel", "entangled", "mixed", "complex")):
